@@ -36,14 +36,15 @@ def run(res, tier, seed):
     plans = [("gac_klm", "noaa16", datetime.datetime(2003, 2, 4, 10, 0, 0), 70), ("lac_klm", "metopa", datetime.datetime(2010, 7, 1, 3, 0, 0), 60),
              ("gac_klm", "noaa16", datetime.datetime(2004, 1, 14, 15, 0, 0), 70),   # inside a scan-motor interval of NOAA-16
              ("gac_klm", "noaa17", datetime.datetime(2003, 10, 1, 12, 0, 0), 60),   # (NOAA-15 has no 3a calibration: NaN gain switch)
-             ("gac_klm", "noaa18", datetime.datetime(2009, 3, 4, 10, 0, 0), 1300)]  # a pass of more than 1024 lines
+             ("gac_klm", "noaa18", datetime.datetime(2009, 3, 4, 10, 0, 0), 1300),  # a pass of more than 1024 lines
+             ("gac_klm", "noaa19", datetime.datetime(2011, 3, 4, 10, 0, 0), 61)]    # third sample 0 on every pixel (a valid count)
     if tier == "thorough":
         plans += [("gac_klm", "noaa18", datetime.datetime(2008, 2, 4, 10, 0, 0), 300), ("lac_klm", "noaa19", datetime.datetime(2012, 2, 4, 10, 0, 0), 120)]
     for fmt, sc, start, n in plans:
         W = l1b.FMT[fmt]["width"]
         samples = []
         for p in range(W):
-            samples += [300 + p % 200, 310 + p % 150, 500 + (7 * p) % 300, 600 + p % 250, 620 + p % 250]
+            samples += [300 + p % 200, 310 + p % 150, (0 if n == 61 else 500 + (7 * p) % 300), 600 + p % 250, 620 + p % 250]
         wb = l1b.words_bytes(l1b.pack_words(samples))
 
         first = rng.choice([1, 3])
@@ -90,7 +91,12 @@ def run(res, tier, seed):
                     res.violations.append(("channel 3b of a line is not (NaN | the thermal calibration of its third sample)",
                                            dict(ctx, line_index=i, line_switch=sw[i], got=[float(x) for x in b[:3]], expected=[float(x) for x in eb[:3]])))
                     break
-                if (sw[i] == 0 and np.all(np.isnan(b))) or (sw[i] == 1 and np.all(np.isnan(a))):
+                if sw[i] == 0 and np.any(np.isfinite(b) & ((b < 170.0) | (b > 350.0))):
+                    res.violations.append(("the delivered 3b value of a line is not a brightness temperature (outside 170..350 K: not the thermal calibration of the third sample)",
+                                           dict(ctx, line_index=i, third_sample=samples[2], delivered=[float(x) for x in b[:3]])))
+                    break
+                # (a third sample of 0 lies below the dark count: no reflectance is defined for it, so 3a is NaN there by C04)
+                if (sw[i] == 0 and np.all(np.isnan(b))) or (sw[i] == 1 and np.all(np.isnan(a)) and samples[2] > 100):
                     res.violations.append(("a line delivers neither 3a nor 3b although its select bits name one (whole line NaN)",
                                            dict(ctx, line_index=i, line_switch=sw[i], target_dropout_line=i in (5, n - 7))))
                     break
@@ -99,7 +105,8 @@ def run(res, tier, seed):
             for k in (0, 1, 4, 5):
                 if not impl.nan_eq(ch[:, :, k], ref_a[:, :, k]):
                     res.violations.append(("channel %d depends on the channel-3 select bits" % k, ctx))
-            coq.append(("[%s]" % "; ".join("(%d, %s, %s)" % (bf, common.blit(a), common.blit(b)) for bf, a, b in flags), ctx))
+            if samples[2] > 100:     # (the all-NaN pattern of the model presumes a third sample for which a reflectance is defined)
+                coq.append(("[%s]" % "; ".join("(%d, %s, %s)" % (bf, common.blit(a), common.blit(b)) for bf, a, b in flags), ctx))
             res.add_case((fmt, sc, str(start), tuple(sw)), len(set(sw)) >= 2 or 2 in sw, dict(fmt=fmt, spacecraft=sc, sequence=name, first_switches=sw[:12]))
     # ---------- POD ----------
     for fmt, sc, start in (("gac_pod", "noaa11", datetime.datetime(1990, 2, 4, 10, 0, 0)), ("lac_pod", "noaa14", datetime.datetime(1996, 2, 4, 10, 0, 0))):
